@@ -21,13 +21,16 @@ def make_cases(tier, seed):
         rows.append(gen.random_feat(rnd))
     cases = []
     for i, f in enumerate(rows):
-        kind = ["none", "valid", "unusable", "none", "valid", "ambiguous"][i % 6]
+        kind = ["none", "valid", "unusable", "none", "valid", "ambiguous", "valid"][i % 7]
         if kind == "none":
             kv_ref = None
         else:
             pos = rnd.randrange(0, f["nkv"] + 1)
             val = rnd.choice({"valid": VALID_VALUES, "unusable": UNUSABLE_VALUES, "ambiguous": AMBIGUOUS_VALUES}[kind])
             kv_ref = ("valid" if kind == "valid" else "unusable", val, pos)
+            if kind == "valid" and i % 7 == 6:
+                # the reference key written with a capture modifier
+                kv_ref = kv_ref + (rnd.choice(["ref:?", "ref:%", "ref:debug", "ref:display"]),)
             if val in ("-1", "&n") and f["target"] in ("blockopen", "slashes"):
                 # a value outside the key-value grammar makes the whole statement unparsable; its target string is then scanned as
                 # ordinary text, where a comment opener triggers the open finding D13 (C10) and would hide the *following* statements
